@@ -35,6 +35,7 @@ def run_check(prop, tier, seed, replay=None):
     mod = importlib.import_module(f"harness.props.{prop.lower()}")
     ctx = core.Ctx(prop, tier, seed, replay_mode=replay is not None)
     rc = 0
+    t_start = time.time()
     try:
         if replay is not None:
             with open(replay) as f:
@@ -80,11 +81,19 @@ def run_check(prop, tier, seed, replay=None):
         # 3. widen the search when a tie or a proof broke and no failing input is known yet
         if (ctx.mismatches or ctx.obligation_failures) and not ctx.violations and ctx.tier == "quick" \
                 and hasattr(mod, "search"):
+            # the quick tier stays a check one runs on every change: the widened search gets what is left of eight minutes
+            # (at least two), then the broken tie / obligation is reported without a failing input
+            budget = max(120.0, 480.0 - (time.time() - t_start))
             try:
-                ctx.note("tie or obligation broken: widened search run")
+                ctx.note(f"tie or obligation broken: widened search run (budget {budget:.0f} s)")
+                ctx.deadline = time.time() + budget
                 mod.search(ctx)
+            except core.BudgetExhausted:
+                ctx.note("widened search stopped at its time budget")
             except Exception:
                 traceback.print_exc()
+            finally:
+                ctx.deadline = None
 
         for kid, n in ctx.known_hits.items():
             k = next(k for k in ctx.known if k["id"] == kid)
